@@ -2,9 +2,9 @@
 package gen
 
 import (
-	"unicode/utf8"
 	"math"
 	"strings"
+	"unicode/utf8"
 
 	"pgregory.net/rapid"
 
